@@ -523,6 +523,44 @@ def reply_text_is_encodable(ctx):
 
 
 
+@rule('C07.R6c', min_instances=1)
+def encoder_does_not_fail_for_a_float_the_cache_can_hold(ctx):
+    """the frame encoders run OUTSIDE the try of send_reply (and outside any handler of the broadcast loop): with
+    `allow_nan=False` json.dumps raises ValueError for NaN / Infinity - values FloatRange lets through today (see the C07.R6
+    finding) - and the exception travels through broadcast_event into announceUpdate: the value is cached, no listener gets
+    the update, and the listeners after the first one are starved.  Either the encoder keeps json's default, or every
+    encoder call lies in a handler that contains the ValueError"""
+    m = ctx.m
+    n = 0
+    for q, f in sorted(m.functions.items()):
+        if not f.module.name.startswith(IFACE) or not f.name.startswith('encode_msg_frame') or f.parent is not None:
+            continue
+        for c in calls_in(f.node):
+            if call_name(c) not in ('json.dumps',):
+                continue
+            n += 1
+            ctx.analysed(f)
+            an = kwarg(c, 'allow_nan')
+            strict = isinstance(an, ast.Constant) and an.value is False
+            if not strict:
+                ctx.ok(f'{f.qualname}:encoder accepts every float the cache can hold', c, 'allow_nan left at its default: json.dumps never raises for a float', f)
+                continue
+            users = [(g, u) for g in m.functions.values() if g.module.name.startswith('frappy.protocol') for u in calls_in(g.node)
+                     if (call_name(u) or '').split('.')[-1] == f.name]
+            loose = []
+            for g, u in users:
+                contained = any(part == 'body' and any((handler_catches_all(h) or 'ValueError' in (handler_type_names(h) or [])) and not handler_reraises(h) for h in t.handlers)
+                                for t, part in enclosing_tries(u))
+                if not contained:
+                    loose.append((g, u))
+            ctx.check(not loose, f'{f.qualname}:encoder accepts every float the cache can hold', c, 'every encoder call is inside a handler for ValueError',
+                      f'`{src(c)}` raises ValueError for NaN / Infinity and `{src(loose[0][1]) if loose else ""}` in {loose[0][0].qualname if loose else ""} runs outside any '
+                      'handler: a driver value of NaN (accepted by FloatRange) is cached but never sent, the exception escapes through broadcast_event into '
+                      'announceUpdate and every listener after the first is starved - the update stream no longer reconstructs the cache', f)
+    if not n:
+        raise AnchorMissing('json.dumps in the frame encoders not found')
+
+
 @rule('C07.R5c', min_instances=8)
 def every_handler_returns_its_reply(ctx):
     """every request handler of the dispatcher (handle_<action> for the actions of REQUEST2REPLY, handle__ident) and
